@@ -1522,6 +1522,55 @@ def _fmt_exc(e):
     return "%s: %s @ %s" % (type(e).__name__, str(e)[:200], " < ".join(reversed(where)))
 
 
+def strengthen(e, eps, pos=True):
+    """a formula implying e in which every real-sorted inequality holds with margin eps (used to pick path witnesses
+    away from branch boundaries, where float replay would be decided by rounding)"""
+    k = e.decl().kind() if z3.is_app(e) else None
+    if k == z3.Z3_OP_NOT:
+        return z3.Not(strengthen(e.arg(0), eps, not pos))
+    if k in (z3.Z3_OP_AND, z3.Z3_OP_OR):
+        f = z3.And if k == z3.Z3_OP_AND else z3.Or
+        return f(*[strengthen(c, eps, pos) for c in e.children()])
+    if k == z3.Z3_OP_IMPLIES:
+        return z3.Implies(strengthen(e.arg(0), eps, not pos), strengthen(e.arg(1), eps, pos))
+    if k in (z3.Z3_OP_LE, z3.Z3_OP_LT, z3.Z3_OP_GE, z3.Z3_OP_GT) and e.arg(0).sort() == z3.RealSort():
+        a, b = e.arg(0), e.arg(1)
+        if k in (z3.Z3_OP_GE, z3.Z3_OP_GT):
+            a, b = b, a  # a <= b / a < b
+        d = z3.RealVal(eps)
+        # positive occurrence: require a + eps <= b ; negative occurrence (we want NOT e with margin): e' = a <= b + eps
+        return (a + d <= b) if pos else (a <= b + d if k in (z3.Z3_OP_LE, z3.Z3_OP_GE) else a < b + d)
+    return e
+
+
+def interior_model(c, eps="1/100000"):
+    """a model of the path condition in which as many real inequalities as possible hold with margin eps (greedy)"""
+    try:
+        s = z3.Solver()
+        s.set("timeout", 1000)
+        orig = list(c.solver.assertions())
+        s.add(*orig)
+        n = 0
+        thin = False
+        for a in orig[::-1]:  # latest decisions first: they are the ones closest to the observed outputs
+            st = strengthen(a, eps)
+            if st.eq(a):
+                continue
+            n += 1
+            if n > 200:
+                break
+            s.push()
+            s.add(st)
+            if s.check() != z3.sat:
+                s.pop()
+                thin = True
+        if s.check() == z3.sat:
+            return s.model(), thin
+    except z3.Z3Exception:
+        pass
+    return None, True
+
+
 def explore(harness, params=None, max_paths=20000, timeout=600.0, validate=True, seed=0, stop_on_violation=False):
     """DFS over all feasible paths of harness(cx, **params)."""
     params = params or {}
@@ -1556,6 +1605,18 @@ def explore(harness, params=None, max_paths=20000, timeout=600.0, validate=True,
                 pr.witness = c.model_assignment(m)
                 if validate:
                     _validate_path(harness, params, pr, c, m, sym_obs)
+                    if pr.validated is not True and not c.exp_args:
+                        # the default model tends to sit on a branch boundary; retry with an interior witness
+                        m2, thin = interior_model(c)
+                        if m2 is not None:
+                            pr.witness = c.model_assignment(m2)
+                            pr.val_detail = None
+                            _validate_path(harness, params, pr, c, m2, sym_obs)
+                        if pr.validated is False and thin:
+                            # the path is only feasible ON a branch boundary (no witness with margin exists): the float
+                            # replay is decided by rounding there, which is outside the claim -> not an engine disagreement
+                            pr.validated = "diverged"
+                            pr.val_detail = "boundary path (no interior witness): " + (pr.val_detail or "")
             elif r == z3.unsat:
                 pr.status = "abort"
                 pr.exc = "path condition unsat at end"
